@@ -59,6 +59,8 @@ def standard(res, args, pid, prop_file, theorems, note, partial=()):
     from lib import apigen
     if pid in apigen.API_THEOREMS:
         apigen.api_obligations(res, pid)
+    from lib import drvgen
+    drvgen.api_dependency(res, pid)
     common.build_ocaml()
     r = run(res.tier, res.seed, pid)
     app, nf = r["summ"].get(pid, (0, 0))
